@@ -4,6 +4,7 @@ P=$1; shift
 [ -f "$P" ] || { [ -f /verif/refactors/$P/patch.diff ] && P=/verif/refactors/$P/patch.diff; }
 [ -f "$P" ] || { [ -f /verif/seeded/$P/patch.diff ] && P=/verif/seeded/$P/patch.diff; }
 WT=${RF_WT:-/tmp/dev_wt}
+[ -d "$WT" ] || git -C /repo worktree add -q --detach "$WT" HEAD   # scratch worktree (remove with: git -C /repo worktree remove --force $WT)
 git -C $WT checkout -q -- . && git -C $WT clean -fdq
 [ "$P" = "-" ] || git -C $WT apply --whitespace=nowarn $P || exit 2
 for c in "$@"; do
